@@ -404,3 +404,19 @@ Proof.
     unfold Rpow. destruct (Req_EM_T (1 / alpha) 0) as [E0|_]; [lra|].
     destruct (Rlt_dec 0 w); [unfold Rpower; apply exp_pos|contradiction].
 Qed.
+
+(** for alpha >= 1 (including exactly 1: the exponential law) there is no boost:
+    d = alpha - 1/3 and the result is d v^3 beta with no further draw *)
+Lemma gamma_no_boost_from_one alpha beta s : 1 <= alpha ->
+  gamma (T:=R) alpha beta s =
+  match gamma_outer (length s) (alpha - 1 / 3) (rsqrt (9 * (alpha - 1 / 3))) None s with
+  | Some (dv, s') => Some (dv * beta, s')
+  | None => None
+  end.
+Proof.
+  intros Ha. unfold gamma. numR.
+  replace (Rltb alpha 1) with false by (symmetry; apply Rltb_false; lra).
+  unfold bind. numR.
+  destruct (gamma_outer (length s) (alpha - 1 / 3) (rsqrt (9 * (alpha - 1 / 3))) None s) as [[dv s']|]; [|reflexivity].
+  replace (Reqb alpha alpha) with true by (symmetry; apply Reqb_true; reflexivity). reflexivity.
+Qed.
